@@ -140,9 +140,13 @@ func queryName(i int, q models.Query) string {
 	case q.Float != nil:
 		return fmt.Sprintf("q%02d %s %s %v", i, q.Property, q.Float.Operator, q.Float.Value)
 	case q.Text != nil:
-		return fmt.Sprintf("q%02d %s %s %q", i, q.Property, q.Text.Operator, q.Text.Value)
+		return fmt.Sprintf("q%02d %s %s %q limit %d filter=%v", i, q.Property, q.Text.Operator, q.Text.Value, q.Text.Limit, q.Text.Filter != nil)
+	case q.VectorFlat != nil:
+		return fmt.Sprintf("q%02d %s flat %v limit %d filter=%v", i, q.Property, q.VectorFlat.Vector, q.VectorFlat.Limit, q.VectorFlat.Filter != nil)
+	case q.VectorVamana != nil:
+		return fmt.Sprintf("q%02d %s graph %v limit %d searchSize %d filter=%v", i, q.Property, q.VectorVamana.Vector, q.VectorVamana.Limit, q.VectorVamana.SearchSize, q.VectorVamana.Filter != nil)
 	}
-	return fmt.Sprintf("q%02d %s vector", i, q.Property)
+	return fmt.Sprintf("q%02d %s tree", i, q.Property)
 }
 
 // ObserveOpts selects what goes into an observation.
@@ -180,24 +184,39 @@ func Observe(s *drive.Shard, pool []uuid.UUID, suite []models.Query, o ObserveOp
 		if err != nil {
 			return nil, fmt.Errorf("suite query %s: %v", queryName(i, q), err)
 		}
+		if q.VectorVamana != nil && !o.GraphLists {
+			continue
+		}
+		limit := 0
+		switch {
+		case q.Text != nil:
+			limit = q.Text.Limit
+		case q.VectorFlat != nil:
+			limit = q.VectorFlat.Limit
+		case q.VectorVamana != nil:
+			limit = q.VectorVamana.Limit
+		}
+		// when an exact index had to cut at the limit, which of several equally ranked points
+		// survive is unspecified: then only the keys (distances / scores) are part of the observation
+		cut := limit > 0 && len(rows) == limit && q.VectorVamana == nil
+		manyTerms := q.Text != nil && len(model.QueryTerms(q.Text.Value)) > 2
 		var parts []string
-		ranked := q.Text != nil || q.VectorFlat != nil || q.VectorVamana != nil
 		for _, r := range rows {
-			p := r.Id.String()[:13]
+			p := ""
+			if !cut {
+				p = r.Id.String()[:13]
+			}
 			if r.Distance != nil {
 				p += fmt.Sprintf(" d=%v", *r.Distance)
 			}
-			if r.Score != nil {
+			if r.Score != nil && !manyTerms {
+				// scores of more than two terms are summed in map order: last bits may differ between evaluations
 				p += fmt.Sprintf(" s=%v", *r.Score)
 			}
 			parts = append(parts, p)
 		}
-		if q.VectorVamana != nil && !o.GraphLists {
-			continue
-		}
-		if !ranked || q.Text != nil || q.VectorFlat != nil {
-			// unordered (filters) or ordered up to ties: compare as sorted lists; for ranked exact
-			// indexes the distances / scores are part of the entries
+		if q.VectorVamana == nil {
+			// unordered (filters) or ordered up to ties (exact ranked indexes): compare as sorted lists
 			sort.Strings(parts)
 		}
 		obs[queryName(i, q)] = strings.Join(parts, ", ")
